@@ -24,6 +24,17 @@
  *                 stays one); everything not listed passes through.  Every remapping that was applied is
  *                 logged once to RDSHIM_LOG as "I <dev> <ino> <newdev> <newino>".
  *
+ *   RDSHIM_STAT = comma separated key=value list (unsigned decimal): the other host-specific fields of a stat result that
+ *                 are not content, replaced in every stat result of an object listed in RDSHIM_INOMAP (every object if no
+ *                 map is given):
+ *                   dsize=N   st_size of directories        nsize=N   st_size of fifos, sockets, device nodes
+ *                   dnlink=N  st_nlink of directories       blocks=N  st_blocks      blksize=N  st_blksize
+ *                   atime=N   st_atime (nsec N % 10^9)      ctime=N   st_ctime (likewise)
+ *                   mtime=N   st_mtime, nsec 0 (content when times are kept: the test sets it only when they are not)
+ *                   rdev=N    st_rdev of everything that is not a block / character device
+ *                   dtype=0   d_type of every directory entry := DT_UNKNOWN (what many file systems report)
+ *                 The first application is logged to RDSHIM_LOG as "S <the list>".
+ *
  * The whole directory is slurped on the first readdir of a DIR*; an error of the real readdir is
  * delivered after the buffered entries with its errno.  Single-threaded use only (the scan is). */
 #define _GNU_SOURCE
@@ -139,19 +150,22 @@ static void imap_load(void)
 	imap_state = 1;
 }
 
-static void remap(uint64_t *dev, uint64_t *ino)
+/* returns 1 if the object is one of the packed tree (listed in the map, or there is no map) */
+static int remap(uint64_t *dev, uint64_t *ino)
 {
 	struct imap key, *e;
 
 	if (imap_state == 0)
 		imap_load();
-	if (imap_state != 1 || imap_count == 0)
-		return;
+	if (imap_state != 1)
+		return 0;
+	if (imap_count == 0)
+		return 1;
 	key.dev = *dev;
 	key.ino = *ino;
 	e = bsearch(&key, imap, imap_count, sizeof(imap[0]), cmp_imap);
 	if (e == NULL)
-		return;
+		return 0;
 	if (!e->logged) {
 		const char *path = getenv("RDSHIM_LOG");
 		FILE *f = path ? fopen(path, "a") : NULL;
@@ -165,15 +179,147 @@ static void remap(uint64_t *dev, uint64_t *ino)
 	}
 	*dev = e->ndev;
 	*ino = e->nino;
+	return 1;
+}
+
+/* ---------------------------------------------------------------------------------------------
+ * the other host-specific stat fields
+ * ------------------------------------------------------------------------------------------- */
+
+enum { SS_DSIZE, SS_NSIZE, SS_DNLINK, SS_BLOCKS, SS_BLKSIZE, SS_ATIME, SS_CTIME, SS_MTIME, SS_RDEV, SS_DTYPE, SS_COUNT };
+static const char *const ss_names[SS_COUNT] = { "dsize", "nsize", "dnlink", "blocks", "blksize", "atime", "ctime", "mtime",
+						 "rdev", "dtype" };
+static struct {
+	int state;		/* 0 = not loaded, 1 = loaded */
+	int any, logged;
+	int have[SS_COUNT];
+	uint64_t val[SS_COUNT];
+} ss;
+
+static void ss_load(void)
+{
+	const char *p = getenv("RDSHIM_STAT");
+	int k;
+
+	ss.state = 1;
+	while (p != NULL && *p != '\0') {
+		for (k = 0; k < SS_COUNT; ++k) {
+			size_t n = strlen(ss_names[k]);
+
+			if (!strncmp(p, ss_names[k], n) && p[n] == '=') {
+				ss.have[k] = 1;
+				ss.val[k] = strtoull(p + n + 1, NULL, 10);
+				ss.any = 1;
+				break;
+			}
+		}
+		p = strchr(p, ',');
+		if (p != NULL)
+			++p;
+	}
+}
+
+static void ss_log(void)
+{
+	const char *path = getenv("RDSHIM_LOG");
+	FILE *f;
+
+	if (ss.logged)
+		return;
+	ss.logged = 1;
+	f = path ? fopen(path, "a") : NULL;
+	if (f != NULL) {
+		fprintf(f, "S %s\n", getenv("RDSHIM_STAT"));
+		fclose(f);
+	}
+}
+
+static int ss_active(void)
+{
+	if (ss.state == 0)
+		ss_load();
+	return ss.any;
+}
+
+static void ss_apply(struct stat *sb)
+{
+	int dev = S_ISBLK(sb->st_mode) || S_ISCHR(sb->st_mode);
+
+	ss_log();
+	if (S_ISDIR(sb->st_mode)) {
+		if (ss.have[SS_DSIZE])
+			sb->st_size = (off_t)ss.val[SS_DSIZE];
+		if (ss.have[SS_DNLINK])
+			sb->st_nlink = (nlink_t)ss.val[SS_DNLINK];
+	} else if (!S_ISREG(sb->st_mode) && !S_ISLNK(sb->st_mode)) {
+		if (ss.have[SS_NSIZE])
+			sb->st_size = (off_t)ss.val[SS_NSIZE];
+	}
+	if (ss.have[SS_BLOCKS])
+		sb->st_blocks = (blkcnt_t)ss.val[SS_BLOCKS];
+	if (ss.have[SS_BLKSIZE])
+		sb->st_blksize = (blksize_t)ss.val[SS_BLKSIZE];
+	if (ss.have[SS_ATIME]) {
+		sb->st_atim.tv_sec = (time_t)ss.val[SS_ATIME];
+		sb->st_atim.tv_nsec = (long)(ss.val[SS_ATIME] % 1000000000ULL);
+	}
+	if (ss.have[SS_CTIME]) {
+		sb->st_ctim.tv_sec = (time_t)ss.val[SS_CTIME];
+		sb->st_ctim.tv_nsec = (long)(ss.val[SS_CTIME] % 1000000000ULL);
+	}
+	if (ss.have[SS_MTIME]) {
+		sb->st_mtim.tv_sec = (time_t)ss.val[SS_MTIME];
+		sb->st_mtim.tv_nsec = 0;
+	}
+	if (ss.have[SS_RDEV] && !dev)
+		sb->st_rdev = (dev_t)ss.val[SS_RDEV];
+}
+
+static void ss_apply_statx(struct statx *sx)
+{
+	int dev = S_ISBLK(sx->stx_mode) || S_ISCHR(sx->stx_mode);
+
+	ss_log();
+	if (S_ISDIR(sx->stx_mode)) {
+		if (ss.have[SS_DSIZE])
+			sx->stx_size = ss.val[SS_DSIZE];
+		if (ss.have[SS_DNLINK])
+			sx->stx_nlink = (uint32_t)ss.val[SS_DNLINK];
+	} else if (!S_ISREG(sx->stx_mode) && !S_ISLNK(sx->stx_mode)) {
+		if (ss.have[SS_NSIZE])
+			sx->stx_size = ss.val[SS_NSIZE];
+	}
+	if (ss.have[SS_BLOCKS])
+		sx->stx_blocks = ss.val[SS_BLOCKS];
+	if (ss.have[SS_BLKSIZE])
+		sx->stx_blksize = (uint32_t)ss.val[SS_BLKSIZE];
+	if (ss.have[SS_ATIME]) {
+		sx->stx_atime.tv_sec = (int64_t)ss.val[SS_ATIME];
+		sx->stx_atime.tv_nsec = (uint32_t)(ss.val[SS_ATIME] % 1000000000ULL);
+	}
+	if (ss.have[SS_CTIME]) {
+		sx->stx_ctime.tv_sec = (int64_t)ss.val[SS_CTIME];
+		sx->stx_ctime.tv_nsec = (uint32_t)(ss.val[SS_CTIME] % 1000000000ULL);
+	}
+	if (ss.have[SS_MTIME]) {
+		sx->stx_mtime.tv_sec = (int64_t)ss.val[SS_MTIME];
+		sx->stx_mtime.tv_nsec = 0;
+	}
+	if (ss.have[SS_RDEV] && !dev) {
+		sx->stx_rdev_major = major(ss.val[SS_RDEV]);
+		sx->stx_rdev_minor = minor(ss.val[SS_RDEV]);
+	}
 }
 
 static void remap_stat(struct stat *sb)
 {
 	uint64_t d = sb->st_dev, i = sb->st_ino;
+	int mine = remap(&d, &i);
 
-	remap(&d, &i);
 	sb->st_dev = d;
 	sb->st_ino = i;
+	if (mine && ss_active())
+		ss_apply(sb);
 }
 
 int fstatat(int dirfd, const char *path, struct stat *sb, int flags)
@@ -312,7 +458,8 @@ int statx(int dirfd, const char *path, int flags, unsigned int mask, struct stat
 		uint64_t d = makedev(sx->stx_dev_major, sx->stx_dev_minor), i = sx->stx_ino;
 
 		saved = errno;
-		remap(&d, &i);
+		if (remap(&d, &i) && ss_active())
+			ss_apply_statx(sx);
 		sx->stx_dev_major = major(d);
 		sx->stx_dev_minor = minor(d);
 		sx->stx_ino = i;
@@ -446,6 +593,10 @@ static struct dbuf *slurp(DIR *dir)
 
 			remap(&d, &i);
 			c->d_ino = i;
+		}
+		if (ss_active() && ss.have[SS_DTYPE]) {
+			ss_log();
+			c->d_type = DT_UNKNOWN;
 		}
 		b->ents[b->count++] = c;
 	}
